@@ -261,6 +261,7 @@ SHAPES = {
     "list-mutated-during-iteration": "let l = [1, 2, 3];\nlet n = 0;\nfor x in l { n += 1; if n < 50 { l.push(x); } l.pop(); l.pop(); }\nprint(l.len());",
     "undefined-before-definition": "try { print(later); } catch e { print(e.message); }\nlet later = 1;\nprint(later);",
     "native-fails-under-native-that-succeeds": "fn lv2() {}\nfn lv3(x) { try { [1].iter().each(lv2); } catch e {} return true; }\nprint([1].iter().all(lv3));\nprint([1, 2].iter().map(lv3).list());\nprint(\"end\");",
+    "launch-method-using-self": "class Foo { init() { self.v = 7; } bar(c) { c <- self.v; } }\nlet ch = chan(1);\nlet foo = Foo();\nlaunch foo.bar(ch);\nprint(<- ch);\nlet b = foo.bar;\nlaunch b(ch);\nprint(<- ch);",
     "print-no-args": "try { print(); } catch e { print(e.message); }\nprint(\"end\");",
 }
 
